@@ -6,11 +6,11 @@ Local Open Scope N_scope.
 
 Definition B (s : string) : list N := map N_of_ascii (list_ascii_of_string s).
 
-(** 6.4.6p1 and the digraphs of p3 ("." "..." "/" "/=" and the comment openers are in the cases of
-    the switch that the translator leaves untranslated; they are decided by correspondence) *)
+(** 6.4.6p1 and the digraphs of p3 ("/" "/=" and the comment openers are in the case of the switch
+    that the translator leaves untranslated; they are decided by correspondence) *)
 Definition punct_table : list (list N * N) := [
   (B "[", K_OpenBracketToken); (B "]", K_CloseBracketToken); (B "(", K_OpenParenToken); (B ")", K_CloseParenToken);
-  (B "{", K_OpenBraceToken); (B "}", K_CloseBraceToken); (B "->", K_ArrowToken); (B "++", K_PlusPlusToken); (B "--", K_MinusMinusToken);
+  (B "{", K_OpenBraceToken); (B "}", K_CloseBraceToken); (B ".", K_DotToken); (B "...", K_EllipsisToken); (B "->", K_ArrowToken); (B "++", K_PlusPlusToken); (B "--", K_MinusMinusToken);
   (B "&", K_AmpersandToken); (B "*", K_AsteriskToken); (B "+", K_PlusToken); (B "-", K_MinusToken); (B "~", K_TildeToken);
   (B "!", K_ExclamationToken); (B "%", K_PercentToken); (B "<<", K_LessThanLessThanToken); (B ">>", K_GreaterThanGreaterThanToken);
   (B "<", K_LessThanToken); (B ">", K_GreaterThanToken); (B "<=", K_LessThanEqualsToken); (B ">=", K_GreaterThanEqualsToken);
